@@ -71,6 +71,38 @@ def verdict (classes : String) (impl : String) (model : Option (DMap M)) (good :
       | none => false
   ⟨m, ok, tag⟩
 
+/-- one batch `d.n,d.n` (as the implementation sent it); `E` = empty batch -/
+def parseBatch (s : String) : Option (List (Nat × Nat)) :=
+  if s = "E" then some [] else
+  (s.splitOn ",").mapM fun e =>
+    match e.splitOn "." with
+    | [d, n] => do pure (← d.toNat?, ← n.toNat?)
+    | _ => none
+
+def parseSends (s : String) : Option (List (List (Nat × Nat))) := (items s ";").mapM parseBatch
+
+def showBatch (b : List M) : String := ",".intercalate (b.map fun m => s!"{m.1}.{m.2.1}")
+
+/-- canonical order of the sends: by destination of the first message, then by text -/
+def showSends (bs : List (List M)) : String :=
+  let keyed := bs.map fun b => ((b.head?.map (·.1)).getD 0, showBatch b)
+  let sorted := keyed.mergeSort fun a b => a.1 < b.1 || (a.1 == b.1 && a.2 ≤ b.2)
+  joinOr (sorted.map (·.2)) ";"
+
+/-- verdict at the message channel: `model` = the batches the skeleton sends (`none`: the range reports an error) -/
+def verdictH (classes : String) (impl : String) (model : Option (List (List M))) (good : List M) (tag : String) : Verdict :=
+  let implSends := ((impl.splitOn "|").getD 1 "")
+  let m := match model with
+    | some bs => classes ++ "|" ++ showSends bs
+    | none => classes ++ "|err"
+  let ok := match model with
+    | none => implSends == "err"
+    | some _ =>
+      match parseSends implSends with
+      | some bs => decide (P06h (·.1) (proj good) bs)
+      | none => false
+  ⟨m, ok, tag⟩
+
 def sizeTag (n : Nat) : String := toString (min n 4)
 
 def handle (op : String) (_args : List String) (impl : String) : Option Verdict :=
@@ -87,11 +119,36 @@ def handle (op : String) (_args : List String) (impl : String) : Option Verdict 
     let good := txs.filterMap (okPart btcTx)
     return verdict classes impl (some (btcProcess (·.1) txs)) good
       s!"btc:n={sizeTag cs.length}:bad={sizeTag (cs.length - good.length)}:good={sizeTag good.length}"
+  | "hevm" | "hsub" | "route" => some <| Id.run do
+    let some cs := (items classes ",").mapM parseClass | return bad
+    let good := cs.filterMap (okPart id)
+    let dsts := (good.map (·.1)).eraseDups.length
+    return verdictH classes impl (some (handleEvents (·.1) id cs)) good
+      s!"{op}:n={sizeTag cs.length}:bad={sizeTag (cs.length - good.length)}:good={sizeTag good.length}:dsts={sizeTag dsts}"
+  | "hbtc" => some <| Id.run do
+    let some cs := (items classes ",").mapM btcClass | return bad
+    let txs := cs.map fun c => [c]
+    let good := txs.filterMap (okPart btcTx)
+    let dsts := (good.map (·.1)).eraseDups.length
+    return verdictH classes impl (some (batches (btcProcess (·.1) txs))) good
+      s!"hbtc:n={sizeTag cs.length}:bad={sizeTag (cs.length - good.length)}:good={sizeTag good.length}:dsts={sizeTag dsts}"
+  | "retry2" => some <| Id.run do
+    let some cs := (items classes ",").mapM parseClass | return bad
+    let model := retryV2 (okPart id) cs
+    let good := cs.filterMap (okPart id)
+    let implSends := ((impl.splitOn "|").getD 1 "")
+    -- every decodable retry event arrives as exactly one single-message batch; nothing else, no empty batch
+    let ok := match parseSends implSends with
+      | some bs => bs.all (·.length == 1) &&
+          (bs.flatten.mergeSort (fun a b => a.1 < b.1 || (a.1 == b.1 && a.2 ≤ b.2)))
+            == ((proj good).mergeSort (fun a b => a.1 < b.1 || (a.1 == b.1 && a.2 ≤ b.2)))
+      | none => false
+    return ⟨classes ++ "|" ++ showSends model, ok, s!"retry2:n={sizeTag cs.length}:bad={sizeTag (cs.length - good.length)}"⟩
   | "retry1" => some <| Id.run do
     let some evs := (items classes "/").mapM retryTx | return bad
     let good := (evs.flatMap (fetched id)).filterMap (okPart (retryItem id exOf))
     let total := (evs.flatMap (fetched id)).length
-    return verdict classes impl (some (retryV1 (·.1) id id exOf evs)) good
+    return verdictH classes impl (some (batches (retryV1 (·.1) id id exOf evs))) good
       s!"retry1:tx={sizeTag evs.length}:n={sizeTag total}:bad={sizeTag (total - good.length)}:good={sizeTag good.length}"
   | "subretry" => some <| Id.run do
     let blocks := items classes "/"
@@ -100,7 +157,7 @@ def handle (op : String) (_args : List String) (impl : String) : Option Verdict 
     let good := (evs.flatMap (fetched id)).filterMap (okPart id)
     let total := (evs.flatMap (fetched id)).length
     let model := subRetry (·.1) (fun e : (Outcome (List (Outcome M))) × Bool => e.1) (·.2) id (evs.zip (blocks.map (· = "B")))
-    return verdict classes impl model good
+    return verdictH classes impl (model.map batches) good
       s!"subretry:blocks={sizeTag evs.length}:abort={aborted}:n={sizeTag total}:bad={sizeTag (total - good.length)}:good={sizeTag good.length}"
   | _ => none
 
